@@ -52,8 +52,19 @@ class TreeLayout:
         the measurements of the tree.
 
         Returns a TreeMeasurement object that describes the bounds of the tree"""
+        self.reset(node)
         self.measure(node)
         return self.transform(node, 0, unit_x_multiplier, unit_y_multiplier)
+
+    def reset(self, node: Optional[BinaryTreeNode] = None) -> None:
+        """Discard the scratch state that an earlier layout left on the nodes. The
+        contour threads in particular must not leak into the next measurement."""
+        if not node:
+            return
+        node.__dict__.pop("thread", None)
+        node.__dict__.pop("level", None)
+        self.reset(node.left)
+        self.reset(node.right)
 
     def measure(
         self,
